@@ -237,6 +237,12 @@ func c33Offset(r *rand.Rand) uint64 {
 		return ^uint64(0)
 	case 5:
 		return uint64(r.Int63())
+	case 6: // rounding of the 14-digit mantissa / of the double conversion: ties, carries
+		xs := []uint64{999999999999995, 99999999999999500, 9007199254740993, 1000000000000005, 1000000000000015,
+			123456789012345678, 150000000000000, 18446744073709551615, 100000000000001, 9999999999999950000}
+		return xs[r.Intn(len(xs))]
+	case 7:
+		return 100000000000000 + uint64(r.Int63n(1000000000000000))
 	default:
 		return uint64(r.Intn(100000))
 	}
